@@ -680,3 +680,40 @@ package lua
 //@ ensures  "numeric": old(isNum(arg(L, 1))) ==> result == old(nargs(L) - selIdx(L)) && old(selIdx(L)) >= 1 && top(L) == old(top(L)) && argsKept(L)
 //@ ensures  "count": old(isStr(arg(L, 1))) ==> result == 1 && top(L) == old(top(L)) + 1 && argsKept(L) && same(pushed(L, 0), old(mkNum(i2f(nargs(L) - 1))))
 //@ modifies L.reg.array, L.reg.top, L.reg.array[*]
+
+// ---------------------------------------------------------------------------
+// pcall / xpcall (baselib.go), C05: how the outcome of the protected call is packaged for the Lua caller. PCall itself is the
+// panic/recover machinery (its deferred recovery is verified as PCall$1); here it is trusted with what that recovery
+// establishes: on failure the value stack is cut back to where the called function was, on success it is Call.
+// pcall: success -> true followed by ALL results; failure -> exactly (false, error value), the error OBJECT of an ApiError as
+// it is (any type), the message otherwise. xpcall: the same, the handler is passed to PCall (which runs it, once, before
+// unwinding: PCall$1) and exactly the function is called, with no arguments.
+// ---------------------------------------------------------------------------
+//@ trusted (*LState).PCall [C05 C10]
+//@ assume PCall(nargs, nret, errfunc) = Call(nargs, nret) under recover: no Go panic leaves it; on failure the recovery (PCall$1, verified) has restored the frame and cut the value stack back to the slot of the called function
+//@ logged pre: ls.reg.array[top(ls)-nargs-1], ls.reg.array[top(ls)-nargs]; post: ls.reg.array[old(top(ls))-nargs-1]
+//@ requires Inv_api(ls) && nargs >= 0 && top(ls) - base(ls) >= nargs + 1
+//@ noraise
+//@ ensures  Inv_api(ls) && ls.reg == old(ls.reg) && ls.currentFrame == old(ls.currentFrame) && base(ls) == old(base(ls)) && ls.G == old(ls.G) && (old(Inv_gfn(ls)) ==> Inv_gfn(ls))
+//@ ensures  "ok": result == nil ==> (nret >= 0 ==> top(ls) == old(top(ls)) - nargs - 1 + nret) && (nret < 0 ==> top(ls) >= old(top(ls)) - nargs - 1)
+//@ ensures  "failed": result != nil ==> top(ls) == old(top(ls)) - nargs - 1
+//@ ensures  forall k int :: base(ls) <= k && k < old(top(ls)) - nargs - 1 ==> ls.reg.array[k] == old(ls.reg.array[k])
+//@ ensures  forall k int :: base(ls) <= k && k < top(ls) ==> ls.reg.array[k] != nil
+//@ modifies everything
+
+//@ func basePCall [C05]
+//@ requires Inv_gfn(L) && nargs(L) >= 1 && regsValid(L) && MetaOK(L)
+//@ ensures  "protected-call-of-exactly-the-arguments": isFn(old(arg(L, 1))) ==> ncalls() == old(ncalls()) + 1 && callfn(old(ncalls())) == fnid("(*LState).PCall") && callargInt(old(ncalls()), 1) == old(nargs(L)) - 1 && callargInt(old(ncalls()), 2) == MultRet && callargLV(old(ncalls()), 10) == old(arg(L, 1))
+//@ ensures  "failure-is-false-and-the-error-value": isFn(old(arg(L, 1))) && callresInt(old(ncalls()), 0) != 0 ==> result == 2 && top(L) == base(L) + 2 && L.reg.array[base(L)] == LFalse
+//@ ensures  "success-is-true-and-all-results": isFn(old(arg(L, 1))) && callresInt(old(ncalls()), 0) == 0 ==> L.reg.array[base(L)] == LTrue && result == top(L) - base(L) && result >= 1
+//@ raises when true
+//@ modifies everything
+
+//@ func baseXPCall [C05]
+//@ requires Inv_gfn(L) && regsValid(L) && MetaOK(L)
+//@ ensures  "exactly-the-function-without-arguments-under-the-handler": ncalls() == old(ncalls()) + 1 && callfn(old(ncalls())) == fnid("(*LState).PCall") && callargInt(old(ncalls()), 1) == 0 && callargInt(old(ncalls()), 2) == MultRet && callargLV(old(ncalls()), 10) == old(arg(L, 1)) && isFn(old(arg(L, 1))) && isFn(old(arg(L, 2))) && callargInt(old(ncalls()), 3) == old(fn(arg(L, 2)))
+//@ ensures  "failure-is-false-and-the-handlers-value": callresInt(old(ncalls()), 0) != 0 ==> result == 2 && top(L) == old(top(L)) + 2 && L.reg.array[old(top(L))] == LFalse
+//@ ensures  "success-is-true-and-all-results": callresInt(old(ncalls()), 0) == 0 ==> L.reg.array[old(top(L))] == LTrue && result == top(L) - old(top(L)) && result >= 1
+//@ ensures  base(L) == old(base(L)) && (forall k int :: base(L) <= k && k < old(top(L)) ==> L.reg.array[k] == old(L.reg.array[k]))
+//@ raises when true
+//@ modifies everything
